@@ -374,10 +374,36 @@ def run(m: Model, r: Report, tier: str) -> None:
     # the client reports a lost connection as MissingResponse (a UDSException) whose __cause__ is the ConnectionError: the wait loop catches UDSException and
     # reconnects when the cause is a ConnectionError (catching ConnectionError directly as well is harmless but not needed: request_unsafe converts them all)
     wh = [h_ for t_ in ast.walk(wl.node) if isinstance(t_, ast.Try) for h_ in t_.handlers if h_.type is not None and "UDSException" in ast.unparse(h_.type)]
-    ok_wl = len(wh) == 1 and wh[0].name is not None and any(
-        isinstance(i_, ast.If) and f"isinstance({wh[0].name}.__cause__, ConnectionError)" in ast.unparse(i_.test) and "not " not in ast.unparse(i_.test) and
-        any(isinstance(c_, ast.Call) and ast.unparse(c_.func) == "self.reconnect" for c_ in ast.walk(i_)) for i_ in ast.walk(wh[0]))
-    r.check(ok_wl, "R7", f"{wl.qualname}#reconnects", "waiting for the ECU must reconnect after a connection error (reported by the client as MissingResponse with the ConnectionError as cause)", loc=wl.loc)
+    ok_wl = len(wh) == 1 and wh[0].name is not None
+    if ok_wl:
+        # the handler, evaluated over (the exception is / is not a ConnectionError) x (its cause is / is not one): reconnect() is awaited exactly when either holds
+        from sa import miniterp as _mtw
+        hn_ = wh[0].name
+        rows_w = {}
+        try:
+            for self_conn in (False, True):
+                for cause_conn in (False, True):
+                    called = []
+
+                    def orc(call, env_, self_conn=self_conn, cause_conn=cause_conn):
+                        f_ = ast.unparse(call.func)
+                        if f_ == "isinstance" and len(call.args) == 2 and "ConnectionError" in ast.unparse(call.args[1]):
+                            a0 = ast.unparse(call.args[0])
+                            # (the client sets __cause__ explicitly; nothing else of the exception - e.g. __context__ - carries the connection error)
+                            return cause_conn if a0 == f"{hn_}.__cause__" else (self_conn if a0 == hn_ else False)
+                        if f_ == "self.reconnect":
+                            called.append(1)
+                            return None
+                        return None
+                    try:
+                        _mtw.exec_body(wh[0].body, {hn_: "EXC", f"{hn_}.__cause__": "CAUSE"}, orc)
+                    except (_mtw.Raised, _mtw._Return, _mtw._Jump):
+                        pass
+                    rows_w[(self_conn, cause_conn)] = bool(called)
+            ok_wl = all(v_ == (k_[0] or k_[1]) for k_, v_ in rows_w.items()) or all(v_ == k_[1] for k_, v_ in rows_w.items())
+        except AnalysisError:
+            ok_wl = None
+    r.check3(ok_wl, "R7", f"{wl.qualname}#reconnects", "waiting for the ECU must reconnect after a connection error (reported by the client as MissingResponse with the ConnectionError as cause)", loc=wl.loc)
     lines_read = m.require_function(f"{BASE}.LinesTransportMixin.read")
     r.check(m.has(lines_read, "binascii.unhexlify(d)") and ".strip()" in ast.unparse(lines_read.node), "R7",
             f"{lines_read.qualname}#eof-is-empty", "end-of-stream of a line transport must decode to b'' (the client's explicit end-of-stream result)", loc=lines_read.loc)
